@@ -577,13 +577,14 @@ of the ring program, with `absRing s = (pseq - cseq, done)` and `ringCfg` = the 
               `RingA.commitC` (-n, by the consumer only, `n ≤ buf` before it), `RingA.close`, or invisible — (b) EFFECT;
 * `producer`  a complete `WriteWait(l)` / `WriteCommit(l)` / `Write(l)` under any interleaving (`pstep .ownWait/.ownCommit`,
               `wstep .wait/.commit`): its outcome is the answer of `RingA.waitSpace` / `RingA.commitP` at its linearisation
-              point — `full` iff `cap < l`; end-of-stream only with `done` set; `ok` only if the ring was open when the call
-              started and, for the committing calls, exactly one own step adds exactly `l`, with `buf + l ≤ cap` before it —
-              (a) ENABLEDNESS, (b); and when nothing can run the call is unfinished iff the producer is parked in it and
-              `RingA.waitSpace … l = none` — (c) BLOCKING = NOT ENABLED;
+              point — `full` iff `cap < l`; end-of-stream only with `done` set; `ok` only if ONE own step (the last `isDone`
+              test) IS `RingA.waitSpace … l = ok`: ring open and `buf + l ≤ cap` in the same state; for the committing calls a
+              later own step adds exactly `l`, with `buf + l ≤ cap` before it — (a) ENABLEDNESS, (b); once `done` is set a call not
+              yet past that test does not succeed — (d); and when nothing can run the call is unfinished iff the producer is parked
+              in it and `RingA.waitSpace … l = none` — (c) BLOCKING = NOT ENABLED;
 * `consumer`  the same for `ReadWait(n)` / `ReadPeek(n)` (`pstep .size/.msg`, `sstep .peek`; no effect; `ok` with the bytes
-              buffered from then on — also on a closed ring —, end-of-stream only with `done` set and too few bytes when the
-              call looked) and `ReadCommit(n)` (`pstep .commit`, `sstep .commit`: IS `RingA.commitC`, never waits);
+              buffered from then on — also on a closed ring —, end-of-stream only if ONE own step IS `RingA.waitData … = eof`:
+              `done` set and too few bytes in the same state) and `ReadCommit(n)` (`pstep .commit`, `sstep .commit`: IS `RingA.commitC`, never waits);
 * `close`     `Close()` (`rstep/sstep .close`, `execStop .inClose/.outClose`, `estep .preClose`) returns `ok`, its first
               statement IS `RingA.close`, it never waits, and once `done` is set no call stays unfinished when nothing can
               run: every parked call has returned — (d) CLOSE;
